@@ -78,6 +78,7 @@ func emit(args []string) {
 		}
 	}
 	offO, offE := 0, 0
+	outClosed, errClosed := false, false
 	for _, step := range strings.Split(plan, ",") {
 		if step == "" {
 			continue
@@ -85,8 +86,12 @@ func emit(args []string) {
 		switch {
 		case step == "co":
 			os.Stdout.Close()
+			outClosed = true
 		case step == "ce":
 			os.Stderr.Close()
+			errClosed = true
+		case strings.HasPrefix(step, "o:") && outClosed, strings.HasPrefix(step, "e:") && errClosed:
+			// nothing can be written to a stream that was closed before
 		case strings.HasPrefix(step, "o:"):
 			n, _ := strconv.Atoi(step[2:])
 			writeAll(os.Stdout, core.Stream(seed, 'o', offO, n, binary))
